@@ -317,7 +317,7 @@ package connect
 
 //@ func (*envelopeReader).Read(r, env) res
 //@   tags C01, C03, C04, C07, C09, C15
-//@   requires r != nil && r.reader != nil && env != nil && env.Data != nil && owned(env.Data)
+//@   requires r != nil && r.reader != nil && !pooled(r.reader) && env != nil && env.Data != nil && owned(env.Data)
 //@   assigns env.Flags, view(env.Data), rest(r.reader)
 //@   ensures let S := old(rest(r.reader)) in |S| >= 5 && withinLimit(declared(S), r.readMaxBytes) && |S| >= 5 + declared(S) ==> res == nil && env.Flags == S[0] && view(env.Data) == old(view(env.Data)) ++ S[5:5+declared(S)] && rest(r.reader) == S[5+declared(S):]   // label: complete-frame-delivered
 //@   ensures |old(rest(r.reader))| == 0 && termerr(r.reader) == io.EOF ==> res != nil && Is(res, io.EOF)      // label: clean-end-is-eof
